@@ -329,6 +329,7 @@ def run(chk, repo, tier):
     if n6 < 2:
         raise AnalysisError('Z6: table selection loops not found in results.py')
     run_more(chk, repo)
+    run_z10_z11(chk, repo)
 
 
 def run_more(chk, repo):
@@ -408,3 +409,46 @@ def run_more(chk, repo):
                           f'about which individuals exist', line=pt.methods[name].node.lineno,
                           witness='an individual whose ETAs are exactly zero but whose OBJ/ETC are not: present in '
                                   'individual_ofv and the covariances, missing from individual_estimates')
+
+
+def run_z10_z11(chk, repo):
+    Z10 = chk.rule('Z10', 'rows/columns of FIXed parameters in cov/cor/coi tables are recognised by exact zeros (no tolerance)',
+                   floor=1)
+    Z11 = chk.rule('Z11', 'flattened triangular matrices of NONMEM tables are unpacked row-wise (lower triangle): through '
+                          'flattened_to_symmetric / tril indices, never triu indices', floor=1)
+    tm = repo.module('pharmpy.model.external.nonmem.table')
+    cov = tm.classes.get('CovTable')
+    f = cov.methods.get('data_frame') if cov else None
+    if f is None:
+        raise AnalysisError('CovTable.data_frame not found')
+    tol = [c for c in ast.walk(f.node) if isinstance(c, ast.Call) and (dotted(c.func) or '').split('.')[-1] in
+           ('isclose', 'allclose', 'round', 'around')]
+    zero_cmp = [c for c in ast.walk(f.node) if isinstance(c, ast.Compare) and isinstance(c.ops[0], (ast.NotEq, ast.Eq))
+                and isinstance(c.comparators[0], ast.Constant) and c.comparators[0].value == 0]
+    chk.instance(Z10, f'CovTable.data_frame: exact zero comparisons {len(zero_cmp)}, tolerance calls {[unparse(t)[:30] for t in tol]}')
+    if tol or not zero_cmp:
+        site = tol[0] if tol else f.node
+        chk.violation(Z10, tm.rel, f.qualname, unparse(site)[:80] if tol else 'no exact zero test',
+                      'NONMEM writes exact zeros for FIXed parameters; a tolerance also drops an estimated parameter on a small '
+                      'scale (variance ~1e-14)', line=site.lineno,
+                      witness='clearance in other units (THETA ~ 5e-6): its row of the .cov file is below 1e-8 everywhere and the '
+                              'parameter disappears from covariance_matrix')
+    n = 0
+    for c_ in tm.classes.values():
+        for m in c_.methods.values():
+            calls = [c for c in ast.walk(m.node) if isinstance(c, ast.Call)]
+            tri = [c for c in calls if (dotted(c.func) or '').split('.')[-1] in ('triu_indices', 'triu_indices_from',
+                                                                                  'tril_indices', 'tril_indices_from')]
+            helper = [c for c in calls if (dotted(c.func) or '').split('.')[-1] == 'flattened_to_symmetric']
+            if not tri and not helper:
+                continue
+            n += 1
+            bad = [c for c in tri if 'triu' in (dotted(c.func) or '')]
+            chk.instance(Z11, f'{m.qualname}: unpacks through {[unparse(c.func) for c in helper + tri]}')
+            for c in bad:
+                chk.violation(Z11, tm.rel, m.qualname, unparse(c),
+                              'NONMEM lists ETC(1,1), ETC(2,1), ETC(2,2), ETC(3,1), ...: upper-triangle indices enumerate the '
+                              'lower triangle column by column, which differs from three variables on', line=c.lineno,
+                              witness='a model with three etas: ETC(2,2) and ETC(3,1) are swapped in every individual matrix')
+    if n == 0:
+        raise AnalysisError('Z11: no triangular unpacking found in table.py')
